@@ -1,0 +1,145 @@
+//go:build verif
+
+package parser
+
+// Machine-checked contracts for the parser's token discipline (see /verif/DESIGN.md, C03).
+// This file contains no declarations: it only carries specification comments
+// that the elkvc verification-condition generator reads.
+
+/*@
+// ---- the three-token window ------------------------------------------------------------------
+// After Parse() has primed it, the parser always holds three lookahead tokens, each a real
+// token with a location; advance() hands out the first and refills from the lexer (whose Next
+// never returns nil: lexer contracts, C04).  A helper that reports "no match" returns a nil
+// token, and every caller must branch on the flag before touching the token: dereferencing it
+// anyway is a Go nil-pointer panic on malformed input instead of a diagnostic.
+spec fn okTok(t *token.Token) bool = t != nil && t.Location() != nil && t.Span() != nil && t.Span().StartPos != nil && t.Span().EndPos != nil
+spec fn wfP(p *Parser) bool = p != nil && p.lexer != nil && okTok(p.lookahead) && okTok(p.secondLookahead) && okTok(p.thirdLookahead) && 0 <= p.lexer.start && p.lexer.start <= p.lexer.cursor && p.lexer.cursor <= len(p.lexer.source)
+
+// recording a diagnostic touches the diagnostic list only (its header and its own backing
+// array); trusted
+func (*Parser).errorMessageLocation
+  trusted
+  requires p != nil
+  assigns p.diagnostics
+
+func (*Parser).advance
+  props C03
+  requires wfP(p)
+  ensures wf: wfP(p)
+  ensures tok: ret == old(p.lookahead) && okTok(ret)
+  ensures shift: p.lookahead == old(p.secondLookahead) && p.secondLookahead == old(p.thirdLookahead)
+
+func (*Parser).accept
+  props C03
+  requires wfP(p)
+  assigns nothing
+  loop 1
+    invariant wfP(p)
+
+func (*Parser).acceptSecond
+  props C03
+  requires wfP(p)
+  assigns nothing
+  loop 1
+    invariant wfP(p)
+
+func (*Parser).acceptThird
+  props C03
+  requires wfP(p)
+  assigns nothing
+  loop 1
+    invariant wfP(p)
+
+func (*Parser).match
+  props C03
+  requires wfP(p)
+  ensures wfP(p)
+  loop 1
+    invariant wfP(p)
+
+// no match: nil token and false; a match: the consumed (real) token and true
+func (*Parser).matchOk
+  props C03
+  requires wfP(p)
+  ensures wf: wfP(p)
+  ensures hit: ret1 ==> okTok(ret0)
+  ensures miss: !ret1 ==> ret0 == nil
+  loop 1
+    invariant wfP(p)
+
+// consume always hands out a real token (the offending one when it does not match)
+func (*Parser).consumeExpected
+  props C03
+  requires wfP(p)
+  ensures wfP(p) && okTok(ret0)
+
+func (*Parser).consume
+  props C03
+  requires wfP(p)
+  ensures wfP(p) && okTok(ret0)
+
+func (*Parser).errorExpected
+  props C03
+  requires wfP(p)
+  ensures wfP(p)
+
+func (*Parser).errorUnexpected
+  props C03
+  requires wfP(p)
+  ensures wfP(p)
+
+func (*Parser).errorMessage
+  props C03
+  requires wfP(p)
+  ensures wfP(p)
+
+func (*Parser).errorToken
+  props C03
+  requires p != nil && okTok(err)
+
+func (*Parser).updateErrorMode
+  props C03
+  requires wfP(p)
+  ensures wfP(p)
+
+func (*Parser).isAtEnd
+  props C03
+  requires wfP(p)
+  assigns nothing
+
+func (*Parser).swallowNewlines
+  props C03
+  requires wfP(p)
+  ensures wfP(p)
+  loop 1
+    invariant wfP(p)
+
+func (*Parser).synchronise
+  props C03
+  requires wfP(p)
+  ensures wfP(p)
+  loop 1
+    invariant wfP(p)
+
+// ---- induction hypothesis for the recursive descent ----------------------------------------------
+// The productions call each other recursively; that a production keeps the token window well
+// formed is proved per production under the hypothesis that the productions it calls do.
+// ASSUMED (listed in the evidence) for the two statement-list productions used below.
+func (*Parser).statements
+  trusted
+  requires wfP(p)
+  ensures wfP(p)
+
+func (*Parser).statementBlock
+  trusted
+  requires wfP(p)
+  ensures wfP(p)
+
+// a closure literal after its parameter list: `-> body` / `~> body`; without an arrow the input
+// is malformed and must yield an invalid node and a diagnostic, not a crash
+func (*Parser).closureAfterArrow
+  props C03
+  requires wfP(p)
+  ensures wfP(p)
+@*/
